@@ -135,7 +135,11 @@ def _valid_code(el):
     from flatland.schema.base import Unevaluated
     if el.valid is Unevaluated:
         return "U"
-    return "T" if el.valid else "F"
+    if el.valid is True:
+        return "T"
+    if el.valid is False:
+        return "F"
+    return "X:%r" % (el.valid,)        # validate() stores bool(...) or Unevaluated, nothing else
 
 
 # ---------------------------------------------------------------- oracle (spec B in Python)
@@ -255,7 +259,7 @@ class C05(Property):
             "0-3 outcomes per validator list; exhaustive sub-space: every 2-node tree (container root + one scalar) over "
             "all outcome lists of length <=1 and all flags; non-trivial = at least 2 validators invoked or a SkipAll cut "
             "or an optional-empty skip; distinct = distinct canonical case JSON")
-    exhaustive_note = "all 2-node trees (Dict or List root with one String child), validator lists of length <= 1, all flags"
+    exhaustive_note = "all 2-node trees (Dict or List root with one String child), validator lists of length <= 1, all flags; plus every ordered tree shape with 2-3 nodes (thorough: 2-4) (scalar leaves) under a Dict root, descent lists from {none,T,F,SkipAll,SkipAllFalse}, ascent lists from {none,T,F}"
     quick_n = 3000
     thorough_n = 150000
 
@@ -283,6 +287,54 @@ class C05(Property):
                     root = {"k": rk, "c": True, "opt": ropt, "empty": False, "down": rd, "up": ru, "kids": [kid]}
                     yield {"tree": _number(root)}
 
+        # every ordered tree SHAPE with up to 3 (quick) / 4 (thorough) nodes — siblings, nesting, empty
+        # containers — over a reduced outcome alphabet: this is where sibling / level order, the ascent in
+        # reverse and "never stops at an invalid sibling" become observable
+        down_opts = [[], ["T"], ["F"], ["SA"], ["SAF"]]
+        up_opts = [[], ["T"], ["F"]]
+
+        def shapes(n):
+            # ordered trees with exactly n nodes; a node is a scalar leaf or a Dict with a non-empty forest below it
+            if n == 1:
+                return [("s",)]
+            out = []
+            for forest in forests(n - 1):
+                out.append(("d", forest))
+            return out
+
+        def forests(n):
+            if n == 0:
+                return [[]]
+            out = []
+            for first in range(1, n + 1):
+                for t in shapes(first):
+                    for rest in forests(n - first):
+                        out.append([t] + rest)
+            return out
+
+        def build(shape):
+            if shape[0] == "s":
+                return {"k": "s", "c": False, "opt": False, "empty": False, "down": [], "up": [], "kids": []}
+            return {"k": "d", "c": True, "opt": False, "empty": False, "down": [], "up": [], "kids": [build(k) for k in shape[1]]}
+
+        import copy
+        for size in ((2, 3) if tier != "thorough" else (2, 3, 4)):
+            for shape in shapes(size):
+                if shape[0] != "d":
+                    continue
+                base = build(shape)
+                nodes = list(_preorder(base))
+                conts = [n for n in nodes if n["c"]]
+                for downs in itertools.product(down_opts, repeat=len(nodes)):
+                    for ups in itertools.product(up_opts, repeat=len(conts)):
+                        t = copy.deepcopy(base)
+                        tn = list(_preorder(t))
+                        for n, d in zip(tn, downs):
+                            n["down"] = list(d)
+                        for n, u in zip([x for x in tn if x["c"]], ups):
+                            n["up"] = list(u)
+                        yield {"tree": _number(t)}
+
     def generate(self, rng, n, tier):
         for _ in range(n):
             depth = rng.choice([1, 2, 2, 3, 3, 4])
@@ -298,7 +350,7 @@ class C05(Property):
     def _observe(self, root, byid, tree, log, start):
         ret = root.validate()
         return {
-            "ret": bool(ret) if isinstance(ret, (bool, int)) else repr(ret),
+            "ret": ret if isinstance(ret, bool) else repr(ret),      # validate() returns a bool
             "valids": [[n["id"], _valid_code(byid[n["id"]])] for n in _preorder(tree)],
             "log": log[start:],
             "all_valid": bool(root.all_valid),
